@@ -10,7 +10,7 @@
 (*  "styles" a small set of trees that together use every construct (two      *)
 (*           attributes with both quote characters inside values, bare child,  *)
 (*           text beside two children, depth 3) x ALL relevant choice vectors  *)
-(*           (one slice per header form x comment form: 20 slices);                       *)
+(*           (one slice per header form x comment form: 24 slices);                       *)
 (*  "trees"  ALL trees of depth <= 2, fan-out <= 2 over 2 names, <= 2          *)
 (*           attributes, 3 contents (children from the leaf set KIDS)          *)
 (*           x the style profiles (one slice per root name x attribute list);  *)
@@ -25,7 +25,19 @@
 (*           SafeOutcomes is stated ("ReadSafe" cases), for the others the     *)
 (*           tree.  (VT cannot be written in a TLA+ string: environment XML_VT)*)
 (*                                                                             *)
+(*  "dashes" comments whose body holds dash runs: EVERY arrangement of runs of   *)
+(*           0..5 dashes at the start, in the middle and at the END of the     *)
+(*           body (directly before "-->", odd and even), bodies of dashes      *)
+(*           only, and '>' after a single dash, in six positions: before the   *)
+(*           root, between two children, before and after the text of a node   *)
+(*           that also has a child, after the root, and before a sibling that  *)
+(*           is followed by a second comment (a reader that misses the         *)
+(*           terminator swallows the sibling).  One slice per position.        *)
+(*                                                                             *)
 (* Laws:                                                                       *)
+(*   DashLaw     a document of the "dashes" family parses to the tree without   *)
+(*               the comments: a comment ends at the first "-->" after its     *)
+(*               opener, whatever dash runs its body holds                     *)
 (*   WellFormed  every generated tree satisfies IsTree                         *)
 (*   RoundTrip   ParseDoc(Render(t, c)) = the document node holding t, and the *)
 (*               end-tag-whitespace flag is exactly what the choices say       *)
@@ -96,7 +108,8 @@ Profiles == {
     [Plain EXCEPT !.hdr = 2, !.q2 = "s", !.selfc = FALSE, !.wt = 2, !.wc = 1, !.cm = 2, !.tp = 2],
     [Plain EXCEPT !.selfc = FALSE, !.we = 1],
     [Plain EXCEPT !.hdr = 3, !.q1 = "s", !.q2 = "s", !.wc = 1, !.cm = 1, !.tp = 1],
-    [Plain EXCEPT !.wc = 1, !.cm = 4] }
+    [Plain EXCEPT !.wc = 1, !.cm = 4],
+    [Plain EXCEPT !.hdr = 1, !.cm = 5] }
 
 AlphaSeq == <<"<", ">", "/", "=", DQ, "a", " ", "!">>
 Alpha    == {AlphaSeq[i] : i \in DOMAIN AlphaSeq}
@@ -106,10 +119,11 @@ Alpha    == {AlphaSeq[i] : i \in DOMAIN AlphaSeq}
 \* ---------------------------------------------------------------------------
 Sl(f, x, y) == [fam |-> f, x |-> x, y |-> y]
 SliceSeq ==
-     [i \in 1..20 |-> Sl("styles", (i - 1) \div 5, Md(i - 1, 5))]                                  \* x = hdr, y = cm
+     [i \in 1..24 |-> Sl("styles", (i - 1) \div 6, Md(i - 1, 6))]                                  \* x = hdr, y = cm
   \o [i \in 1..(Len(NameSeq) * Len(PropListSeq)) |-> Sl("trees", 1 + (i - 1) \div Len(PropListSeq), 1 + Md(i - 1, Len(PropListSeq)))]
   \o [i \in 1..Len(CoreSeq) |-> Sl("prefix", i, 0)]
   \o [i \in 1..3 |-> Sl("content", i, 0)]
+  \o [i \in 1..6 |-> Sl("dashes", i, 0)]
   \o (IF SPLIT2 THEN [i \in 1..64 |-> Sl("short", 1 + (i - 1) \div 8, 1 + Md(i - 1, 8))] \o <<Sl("short", 0, 0)>>
       ELSE [i \in 1..8 |-> Sl("short", i, 0)] \o <<Sl("short", 0, 0)>>)                          \* (0, 0): the strings shorter than the prefix
 
@@ -214,6 +228,43 @@ ContentSlice(sl, file) ==
      ELSE PrintT(<<"content law fails", sl, CHOOSE r \in Runs : ~ContentEval(sl.x, r).law>>) /\ FALSE
 
 \* ---------------------------------------------------------------------------
+\* family "dashes": dash runs in comment bodies
+\* ---------------------------------------------------------------------------
+Dashes(n) == [i \in 1..n |-> "-"]
+DashBodySet ==
+       {Dashes(x) \o <<"x">> \o Dashes(m) \o <<"y">> \o Dashes(e) : x \in 0..5, m \in 0..5, e \in 0..5}
+  \cup {Dashes(e) : e \in 0..5}                                            \* <!---->, <!----->, ...
+  \cup {<<"x", "-", ">", "y">> \o Dashes(e) : e \in 0..5}                  \* '>' after a single dash
+  \cup {<<"-", ">">> \o Dashes(e) : e \in 0..5} \cup {<<">">> \o Dashes(e) : e \in 0..5}
+Cmt(b) == <<"<", "!", "-", "-">> \o b \o <<"-", "-", ">">>
+El(n) == <<"<", n, "/", ">">>
+Open(n) == <<"<", n, ">">>
+Close(n) == <<"<", "/", n, ">">>
+DashDoc(pos, b) ==
+  CASE pos = 1 -> Cmt(b) \o Open("a") \o El("b") \o Close("a")
+    [] pos = 2 -> Open("a") \o El("b") \o Cmt(b) \o El("c") \o Close("a")
+    [] pos = 3 -> Open("a") \o Cmt(b) \o <<"t">> \o El("b") \o Close("a")
+    [] pos = 4 -> Open("a") \o El("b") \o Close("a") \o Cmt(b)
+    [] pos = 5 -> Open("a") \o Cmt(b) \o El("b") \o Cmt(<<"z">>) \o El("c") \o Close("a")
+    [] pos = 6 -> Open("a") \o <<"t">> \o Cmt(b) \o El("b") \o Close("a")
+Lf(n) == Node(<<n>>, <<>>, <<>>, <<>>)
+DashTree(pos) ==
+  CASE pos \in {1, 4} -> Node(<<"a">>, <<>>, <<>>, <<Lf("b")>>)
+    [] pos \in {2, 5} -> Node(<<"a">>, <<>>, <<>>, <<Lf("b"), Lf("c")>>)
+    [] pos \in {3, 6} -> Node(<<"a">>, <<>>, <<"t">>, <<Lf("b")>>)
+DashEval(pos, b) ==
+  LET d == DashDoc(pos, b)
+      p == ParseDoc(d)
+  IN [law |-> p = [ok |-> TRUE, tree |-> DocNode(<<DashTree(pos)>>), ew |-> FALSE],
+      case |-> [a |-> "Read", arg |-> [doc |-> Join(d)], cls |-> DocClass(p, d), exp |-> [outcome |-> "ok", tree |-> TreeJ(DocNode(<<DashTree(pos)>>))]]]
+DashSlice(sl, file) ==
+  \E Ev \in {{DashEval(sl.x, b) : b \in DashBodySet}} :
+     IF \A e \in Ev : e.law
+     THEN ndJsonSerialize(file, SetToSeq({e.case : e \in Ev}))
+          /\ PrintT(<<"xmlgen", sl, "comment bodies", Cardinality(DashBodySet)>>)
+     ELSE PrintT(<<"dash law fails", sl, CHOOSE b \in DashBodySet : ~DashEval(sl.x, b).law>>) /\ FALSE
+
+\* ---------------------------------------------------------------------------
 PolicyCase == [a |-> "Policy", arg |-> [what |-> "any file"], cls |-> "", exp |-> [outcomes |-> SetToSeq(SafeOutcomes)]]
 
 Do(i) ==
@@ -223,6 +274,7 @@ Do(i) ==
        [] sl.fam = "prefix" -> PrefixSlice(sl) /\ (IF sl.x = 1 THEN ndJsonSerialize(file, <<PolicyCase>>) ELSE TRUE)
        [] sl.fam = "short" -> ShortSlice(sl, file)
        [] sl.fam = "content" -> ContentSlice(sl, file)
+       [] sl.fam = "dashes" -> DashSlice(sl, file)
 
 Init == slice \in {i \in DOMAIN SliceSeq : FAMS = "all" \/ SliceSeq[i].fam = FAMS}
 Next == \/ slice > 0 /\ Do(slice) /\ slice' = 0 - slice
